@@ -127,7 +127,7 @@ def c13(tier, args):
     return engine_a.run_scenarios(
         "C13", tier, scs, _deadline(args, 900, 6000, tier),
         rule="every interleaving, without bound, of 2-3 plain threads running programs over {get, get-and-hold-the-handle, insert, "
-             "remove, empty, clear, scan} on the real mutex_db; the scheduling points are the acquisition and release of the "
+             "remove, empty, clear, scan, scan_from, scan_range} on the real mutex_db; the scheduling points are the acquisition and release of the "
              "index mutex (pthread_mutex_lock/unlock defined in the runner), a requester of a held mutex is disabled until its "
              "release; non-trivial = distinct result histories in which operations of two threads overlapped",
         assumptions=["the unsynchronised db underneath has no scheduling points: a missing lock cannot show as a wrong result under "
